@@ -162,20 +162,36 @@ type c15hRef struct {
 	kind        string
 	lastRefresh map[string]time.Time
 	episodes    map[string]time.Time // "held|holder" -> start of the current hold episode
+	// a request of this episode was refused: the episode is NOT over (the held snap was neither refreshed nor
+	// released), every further request of the holder must be refused too
+	refused map[string]bool
+	// ... and the holder has asked again since (the known finding "retry-after-refusal": snapd forgets the
+	// episode when it refuses, so the retry is granted a fresh 48h)
+	retried map[string]bool
+	// a retry after a refusal has happened and G has not released everything since: what snapd reports for
+	// records without a reference episode (G's hold on itself) is a consequence of the known finding
+	tainted bool
 	// what happened to each held snap during the event that was applied last (for messages / keys)
 	refusedNow map[string]bool
 }
 
 func c15hNewRef(kind string, now time.Time) *c15hRef {
-	r := &c15hRef{kind: kind, lastRefresh: map[string]time.Time{}, episodes: map[string]time.Time{}, refusedNow: map[string]bool{}}
+	r := &c15hRef{kind: kind, lastRefresh: map[string]time.Time{}, episodes: map[string]time.Time{}, refused: map[string]bool{}, retried: map[string]bool{}, refusedNow: map[string]bool{}}
 	for _, n := range []string{c15hA, c15hG} {
 		r.lastRefresh[n] = now.Add(-12 * time.Hour)
 	}
 	return r
 }
 
-// holdRequest: G asks to hold every snap whose refresh affects it. Returns whether the request must be refused.
-func (r *c15hRef) holdRequest(now time.Time) (refuse bool) {
+func (r *c15hRef) end(key string) {
+	delete(r.episodes, key)
+	delete(r.refused, key)
+	delete(r.retried, key)
+}
+
+// holdRequest: G asks to hold every snap whose refresh affects it. Returns whether the request must be refused
+// and whether it is a retry in an episode that already had a refusal.
+func (r *c15hRef) holdRequest(now time.Time) (refuse, retry bool) {
 	set := c15hAffecting[r.kind]
 	for _, on := range set {
 		if !now.Before(r.lastRefresh[on].Add(c15hMaxAny)) {
@@ -184,36 +200,55 @@ func (r *c15hRef) holdRequest(now time.Time) (refuse bool) {
 		if start, ok := r.episodes[on+"|"+c15hG]; ok && on != c15hG && !now.Before(start.Add(c15hMaxOther)) {
 			refuse = true
 		}
+		if r.refused[on+"|"+c15hG] {
+			retry = true
+		}
+	}
+	if retry {
+		r.tainted = true
 	}
 	for _, on := range set {
 		key := on + "|" + c15hG
+		_, running := r.episodes[key]
+		if r.refused[key] {
+			r.retried[key] = true
+		}
 		if refuse {
-			// a refusal ends the episodes of the request (the next accepted request starts new ones)
-			delete(r.episodes, key)
 			r.refusedNow[on] = true
+			if running && on != c15hG {
+				// a refusal does not end the episode of another snap: the 48 hours keep counting from the first hold
+				r.refused[key] = true
+			} else {
+				r.end(key)
+			}
 		} else {
-			if _, ok := r.episodes[key]; !ok {
+			if !running {
 				r.episodes[key] = now
 			}
 			delete(r.refusedNow, on)
 		}
 	}
-	return refuse
+	return refuse, retry
 }
 
+// proceed: an effective --proceed (or exit 0 without a hold request) of G releases everything G holds
 func (r *c15hRef) proceed() {
 	for k := range r.episodes {
 		if strings.HasSuffix(k, "|"+c15hG) {
-			delete(r.episodes, k)
+			r.end(k)
 		}
 	}
+	r.tainted = false
 }
 
 func (r *c15hRef) refresh(name string, now time.Time) {
 	r.lastRefresh[name] = now
+	if name == c15hG {
+		r.tainted = false // the refresh of G resets every hold on G, also its own
+	}
 	for k := range r.episodes {
 		if strings.HasPrefix(k, name+"|") {
-			delete(r.episodes, k)
+			r.end(k)
 		}
 	}
 }
@@ -358,6 +393,9 @@ type c15hSnapshot struct {
 	now   time.Time
 	lastR map[string]time.Time
 	eps   map[string]time.Time
+	refd  map[string]bool
+	retr  map[string]bool
+	taint bool
 }
 
 func (w *c15hWorld) snapshot() *c15hSnapshot {
@@ -368,12 +406,18 @@ func (w *c15hWorld) snapshot() *c15hSnapshot {
 	w.backend.mu.Lock()
 	data := append([]byte(nil), w.backend.last...)
 	w.backend.mu.Unlock()
-	s := &c15hSnapshot{kind: w.kind, data: data, now: w.getNow(), lastR: map[string]time.Time{}, eps: map[string]time.Time{}}
+	s := &c15hSnapshot{kind: w.kind, data: data, now: w.getNow(), lastR: map[string]time.Time{}, eps: map[string]time.Time{}, refd: map[string]bool{}, retr: map[string]bool{}, taint: w.ref.tainted}
 	for k, v := range w.ref.lastRefresh {
 		s.lastR[k] = v
 	}
 	for k, v := range w.ref.episodes {
 		s.eps[k] = v
+	}
+	for k, v := range w.ref.refused {
+		s.refd[k] = v
+	}
+	for k, v := range w.ref.retried {
+		s.retr[k] = v
 	}
 	return s
 }
@@ -426,6 +470,13 @@ func c15hRestore(s *c15hSnapshot) *c15hWorld {
 	for k, v := range s.eps {
 		w.ref.episodes[k] = v
 	}
+	for k, v := range s.refd {
+		w.ref.refused[k] = v
+	}
+	for k, v := range s.retr {
+		w.ref.retried[k] = v
+	}
+	w.ref.tainted = s.taint
 	return w
 }
 
@@ -567,11 +618,17 @@ func (w *c15hWorld) runHook(script string) {
 		case "hold", "pendinghold":
 			lastWord = "hold"
 			before := w.describeBounds(now)
-			refuse := w.ref.holdRequest(now)
+			refuse, retry := w.ref.holdRequest(now)
 			w.stats["hold_requests"]++
 			switch {
 			case refuse && c.err == nil:
-				w.problem("refuse", "snapctl refresh --hold by %s at +%s was accepted (%q) although a bound was reached (%s)", c15hG, w.rel(now), strings.TrimSpace(c.stdout), before)
+				cls := "refuse"
+				if retry {
+					// the class of the known finding: snapd forgets the episode when it refuses, the retry gets a fresh 48h
+					cls = "retry-after-refusal"
+					w.stats["retries_after_refusal_accepted"]++
+				}
+				w.problem(cls, "snapctl refresh --hold by %s at +%s was accepted (%q) although a bound was reached (%s)", c15hG, w.rel(now), strings.TrimSpace(c.stdout), before)
 				out = append(out, "hold:accepted!")
 			case refuse:
 				if !strings.Contains(c.err.Error(), "cannot hold some snaps") {
@@ -610,7 +667,7 @@ func (w *c15hWorld) runHook(script string) {
 		}
 		if lastWord != "hold" {
 			// a failing hook means "hold" unless the hook already said so itself
-			refuse := w.ref.holdRequest(now)
+			refuse, _ := w.ref.holdRequest(now)
 			w.stats["implicit_hold_requests"]++
 			if refuse {
 				w.stats["implicit_holds_refused"]++
@@ -649,7 +706,7 @@ func (w *c15hWorld) runHook(script string) {
 			}
 		}
 		if !established {
-			delete(w.ref.episodes, k)
+			w.ref.end(k)
 			w.stats["accepted_holds_not_in_effect"]++
 			notHeld = append(notHeld, "not-held:"+onBy[0])
 		}
@@ -665,6 +722,9 @@ func (w *c15hWorld) describeBounds(now time.Time) string {
 		ep := "none"
 		if s, ok := w.ref.episodes[on+"|"+c15hG]; ok {
 			ep = "+" + w.rel(s)
+			if w.ref.refused[on+"|"+c15hG] {
+				ep += " (a request of this episode was refused before)"
+			}
 		}
 		parts = append(parts, fmt.Sprintf("%s: episode start %s, last refresh %s ago", on, ep, now.Sub(w.ref.lastRefresh[on])))
 	}
@@ -717,7 +777,10 @@ func (w *c15hWorld) check(ev c15hEvent) {
 				}
 				start, ok := w.ref.episodes[on+"|"+h]
 				if !ok {
-					if w.ref.refusedNow[on] {
+					if w.ref.tainted {
+						// e.g. G's hold on itself, re-created by a retry that snapd should have refused (known finding)
+						w.problem("retry-after-refusal", "%s is reported held by %s at +%s without a running hold episode, after %s asked again in an episode that already had a refusal", on, h, w.rel(t), c15hG)
+					} else if w.ref.refusedNow[on] {
 						w.problem("refused-hold-extended", "%s is reported held by %s at +%s although the hold request made during %s at +%s was refused (bound reached) and nothing else was requested", on, h, w.rel(t), ev, w.rel(now))
 					} else {
 						w.problem("report", "%s is reported held by %s at +%s although that hold was released (proceed), refused or reset by a refresh", on, h, w.rel(t))
@@ -725,7 +788,15 @@ func (w *c15hWorld) check(ev c15hEvent) {
 					continue
 				}
 				if h != on && t.After(start.Add(c15hMaxOther)) {
-					w.problem("bound48h", "%s is reported held by %s at +%s, more than 48h after the hold episode started at +%s", on, h, w.rel(t), w.rel(start))
+					switch k := on + "|" + h; {
+					case w.ref.refused[k] && w.ref.retried[k]:
+						// the known finding: the refusal made snapd forget the episode, the retry was granted a fresh 48h
+						w.problem("retry-after-refusal", "%s is reported held by %s at +%s, more than 48h after the hold episode started at +%s: a request of this episode was refused and %s asked again", on, h, w.rel(t), w.rel(start), h)
+					case w.ref.refused[k]:
+						w.problem("refused-hold-extended", "%s is reported held by %s at +%s, more than 48h after the hold episode started at +%s, although the last hold request of %s was refused (bound reached) and it has not asked again", on, h, w.rel(t), w.rel(start), h)
+					default:
+						w.problem("bound48h", "%s is reported held by %s at +%s, more than 48h after the hold episode started at +%s", on, h, w.rel(t), w.rel(start))
+					}
 				}
 				if t.After(w.ref.lastRefresh[on].Add(c15hMaxAny)) {
 					w.problem("bound90d", "%s is reported held by %s at +%s, more than 90 days after its last refresh at +%s", on, h, w.rel(t), w.rel(w.ref.lastRefresh[on]))
@@ -737,7 +808,7 @@ func (w *c15hWorld) check(ev c15hEvent) {
 	for k, start := range w.ref.episodes {
 		on := strings.SplitN(k, "|", 2)[0]
 		within := now.Before(w.ref.lastRefresh[on].Add(c15hMaxAny)) && (on == c15hG || now.Before(start.Add(c15hMaxOther)))
-		if within {
+		if within && !w.ref.refused[k] {
 			w.stats["running_holds_expected"]++
 			if heldNow[k] {
 				w.stats["running_holds_reported"]++
@@ -788,7 +859,10 @@ func (w *c15hWorld) key() string {
 		parts = append(parts, fmt.Sprintf("lr(%s)=%s", n, snapst.LastRefreshTime.Sub(now)))
 	}
 	for k, start := range w.ref.episodes {
-		parts = append(parts, fmt.Sprintf("ep(%s)=%s", k, start.Sub(now)))
+		parts = append(parts, fmt.Sprintf("ep(%s)=%s/refused=%v/retried=%v", k, start.Sub(now), w.ref.refused[k], w.ref.retried[k]))
+	}
+	if w.ref.tainted {
+		parts = append(parts, "tainted")
 	}
 	if n := len(w.st.Changes()); n != 0 {
 		parts = append(parts, fmt.Sprintf("changes=%d", n))
@@ -857,6 +931,9 @@ func c15hReplay(kind string, path []c15hEvent) *c15hWorld {
 }
 
 func c15hViolKey(p c15hProblem, kind string, ev c15hEvent) string {
+	if p.Class == "retry-after-refusal" {
+		return "hook|retry-after-refusal" // one class key: the same defect whatever world / event made it visible
+	}
 	what := ev.K
 	if ev.K == "hook" {
 		what = "hook:" + ev.S
@@ -1065,7 +1142,7 @@ func c15hPruneProbe(r *eng.Run) {
 		if err != nil {
 			eng.HarnessError("prune probe: %v", err)
 		}
-		delete(w.ref.episodes, c15hA+"|"+c15hG) // reference: the prune ends the episode
+		w.ref.end(c15hA + "|" + c15hG) // reference: the prune ends the episode
 		if gating[c15hA][c15hG] == nil {
 			pruned++
 			w.close()
@@ -1106,7 +1183,7 @@ func TestVerifC15hook(t *testing.T) {
 	}
 	quickBudget, thoroughBudget := 300*time.Second, 14*time.Minute // soft: exceeding them caps the run (exhaustive=false, exit 0)
 	r := eng.Start("C15", "model_checking", quickBudget, thoroughBudget)
-	r.Assume("hold episode of (held, holder) = from the first accepted hold request (that leaves the snap reported held) after a release (proceed), a refusal, or a refresh of the held snap",
+	r.Assume("hold episode of (held, holder) = from the first accepted hold request (that leaves the snap reported held) after a release (effective proceed) or a refresh of the held snap; a refused request does not end the episode of another snap (it was neither refreshed nor released), so every later request of the holder must be refused too - snapd forgets the episode when it refuses: known finding hook|retry-after-refusal",
 		"bounds: 48h after the episode start for another snap, 90 days (95 days minus the 5-day buffer) after the held snap's last refresh for every snap",
 		"contract of the gate-auto-refresh hook: exit 0 without --hold as the last snapctl request = proceed; a failing hook = hold request, unless the hook's last request already was --hold (then the answer it got stands)",
 		"a hold request of the gating snap covers every snap whose pending refresh affects it (checked against AffectingSnapsForAffectedByRefreshCandidates when a fixture is built); all of them are refused together",
